@@ -21,7 +21,7 @@ MC_IdCOf == [sac |-> "cS"]
 MC_Canon == {"sac"}
 MC_Metas == [good     |-> [nameLen |-> 10, symLen |-> 4, decimals |-> 7, utf8 |-> TRUE, style |-> "ascii"],
              emptySym |-> [nameLen |-> 5,  symLen |-> 0, decimals |-> 7, utf8 |-> TRUE, style |-> "ascii"],
-             sacMeta  |-> [nameLen |-> 6,  symLen |-> 6, decimals |-> 7, utf8 |-> TRUE, style |-> "ascii"]]
+             sacMeta  |-> [nameLen |-> 6,  symLen |-> 6, decimals |-> 7, utf8 |-> TRUE, style |-> "sac"]]
 MC_Keys == {"k1", "k1b", "k1_e"}
 
 Tx(id, to, amt, data) == [outer |-> "recv", origin |-> "ethereum", inner |-> "transfer", id |-> id, sender |-> "evm1",
@@ -119,6 +119,7 @@ C04_Once == Step(Once)
 C04_Untouched == Step(Untouched)
 C04_Conforming == Step(Conforming)
 C04_NonNegative == NonNegative(st)
+Compose == Step(ComposeStep)
 
 (* the same step properties in one pass over the enabled actions (quick tier) *)
 C04_AllSteps == \A a \in EnabledActs(st) : LET r == Apply(st, a) IN Gate(st, a, r) /\ Once(st, a, r) /\ Untouched(st, a, r) /\ Conforming(st, a, r)
